@@ -233,12 +233,12 @@ class KeyedList(Generic[ItemType, KeyType], MutableSequence, KeyedBase):  # pyli
 
     def __add__(self, other):
         if isinstance(other, Sequence):
-            return type(self)([*self._list, *other])
+            return type(self)([*self._list, *other], self._key)
         return NotImplemented
 
     def __radd__(self, other):
         if isinstance(other, Sequence):
-            return type(self)([*other, *self._list])
+            return type(self)([*other, *self._list], self._key)
         return NotImplemented
 
     def __repr__(self):
